@@ -267,3 +267,100 @@ Proof.
   cbn. intros H1 H2. inversion H1; subst. cbn in H2. inversion H2.
   reflexivity.
 Qed.
+
+(* --------------------------------------------------------- source id table *)
+Lemma nodup_snoc {A} (l : list A) x : NoDup l -> ~ In x l -> NoDup (l ++ [x]).
+Proof.
+  induction l as [|y l IH]; intros Hnd Hx; cbn.
+  - constructor; [intros []|constructor].
+  - inversion Hnd as [|? ? Hy Hl]; subst. constructor.
+    + intros Hin. apply in_app_or in Hin. destruct Hin as [Hin|[E|[]]].
+      * contradiction.
+      * subst. apply Hx. left. reflexivity.
+    + apply IH; auto. intros Hin. apply Hx. right. exact Hin.
+Qed.
+
+Section SourceIdsProofs.
+  Variable Pth : Type.
+  Variable same : Pth -> Pth -> bool.
+  Variable first_id : Z.
+  Variable fresh : Z -> Z.
+  Hypothesis same_spec : forall a b, same a b = true <-> a = b.
+  Hypothesis fresh_above : forall m, m < fresh m.
+
+  Notation lookup := (lookup_id Pth same).
+  Notation maxid := (max_id Pth first_id).
+
+  Lemma max_id_ge i p (tbl : idtable Pth) :
+    In (i, p) tbl -> i <= maxid tbl.
+  Proof.
+    induction tbl as [|[j q] r IH]; intros Hin; [contradiction|].
+    destruct Hin as [E|Hin].
+    - inversion E; subst. destruct r as [|e r']; cbn; [lia|].
+      destruct e. lia.
+    - specialize (IH Hin). destruct r as [|e r']; [contradiction|].
+      cbn [max_id]. destruct e as [k q']. cbn [max_id] in IH. lia.
+  Qed.
+
+  Lemma lookup_some p (tbl : idtable Pth) i :
+    lookup p tbl = Some i -> In (i, p) tbl.
+  Proof.
+    induction tbl as [|[j q] r IH]; cbn; intros H; [discriminate|].
+    destruct (same q p) eqn:E.
+    - inversion H; subst. apply same_spec in E. subst. auto.
+    - auto.
+  Qed.
+
+  Lemma nodup_fst_functional (tbl : idtable Pth) i p q :
+    NoDup (map fst tbl) -> In (i, p) tbl -> In (i, q) tbl -> p = q.
+  Proof.
+    induction tbl as [|[j r] t IH]; intros Hnd Hp Hq; [contradiction|].
+    cbn in Hnd. inversion Hnd as [|? ? Hnotin Hnd']; subst.
+    destruct Hp as [Ep|Hp], Hq as [Eq|Hq].
+    - congruence.
+    - inversion Ep; subst. exfalso. apply Hnotin.
+      apply (in_map fst) in Hq. exact Hq.
+    - inversion Eq; subst. exfalso. apply Hnotin.
+      apply (in_map fst) in Hp. exact Hp.
+    - eauto.
+  Qed.
+
+  Lemma get_source_id_nodup p (tbl : idtable Pth) :
+    NoDup (map fst tbl) ->
+    NoDup (map fst (snd (get_source_id Pth same first_id fresh p tbl))).
+  Proof.
+    intros Hnd. unfold get_source_id.
+    destruct (lookup p tbl); cbn [snd]; [exact Hnd|].
+    rewrite map_app. cbn [map fst].
+    apply nodup_snoc; [exact Hnd|].
+    intros Hin. apply in_map_iff in Hin. destruct Hin as [[j q] [Ej Hin]].
+    cbn in Ej. subst j. pose proof (max_id_ge _ _ _ Hin) as Hle.
+    unfold new_id in Hle. destruct tbl as [|e r]; [contradiction|].
+    pose proof (fresh_above (maxid (e :: r))). lia.
+  Qed.
+
+  Lemma register_all_nodup ps :
+    NoDup (map fst (register_all Pth same first_id fresh ps)).
+  Proof.
+    unfold register_all.
+    assert (H : forall t, NoDup (map fst t) ->
+              NoDup (map fst (fold_left
+                (fun t p => snd (get_source_id Pth same first_id fresh p t))
+                ps t))).
+    { induction ps as [|p r IH]; intros t Ht; cbn; auto.
+      apply IH. apply get_source_id_nodup. exact Ht. }
+    apply H. constructor.
+  Qed.
+
+  (* distinct registered paths never share a source id *)
+  Lemma source_ids_injective ps p q i :
+    let tbl := register_all Pth same first_id fresh ps in
+    lookup p tbl = Some i -> lookup q tbl = Some i -> p = q.
+  Proof.
+    intros tbl Hp Hq.
+    eapply nodup_fst_functional.
+    - apply (register_all_nodup ps).
+    - apply lookup_some. exact Hp.
+    - apply lookup_some. exact Hq.
+  Qed.
+End SourceIdsProofs.
